@@ -110,6 +110,7 @@ def table_st(draw, stat=False):
     else:
         case["probe_steps"] = draw(st.lists(st.integers(0, 40), min_size=1, max_size=8))
         case["via_run"] = draw(st.booleans())
+        case["new_interval"] = draw(st.integers(1, 5))
     return case
 
 
@@ -193,12 +194,12 @@ def run_steps(case):
                 return False
 
         try:
-            mc.add_move(P(), criteria=N(), name="overcommit", minimum_count=room + 1)
-            return {"labels": labels, "nontrivial": True, "key": key, "violation": {"kind": "overcommit-accepted", "detail": f"add_move accepted minimum_count={room + 1} with {total_min} already committed of {case['cycles']} cycles"}}
+            mc.add_move(P(), criteria=N(), name="overcommit", minimum_count=room + 1, interval=case.get("new_interval", 1))
+            return {"labels": labels, "nontrivial": True, "key": key, "violation": {"kind": "overcommit-accepted", "detail": f"add_move accepted minimum_count={room + 1} (interval {case.get('new_interval', 1)}) with {total_min} already committed of {case['cycles']} cycles, table {case['table']}"}}
         except ValueError:
             pass
         try:
-            mc.add_move(P(), criteria=N(), name="fits", minimum_count=room)
+            mc.add_move(P(), criteria=N(), name="fits", minimum_count=room, interval=case.get("new_interval", 1))
         except ValueError as exc:
             return {"labels": labels, "nontrivial": True, "key": key, "violation": {"kind": "fitting-move-refused", "detail": f"add_move refused minimum_count={room} with {total_min} committed of {case['cycles']}: {exc}"}}
     return {"labels": sorted(set(labels)), "nontrivial": nontrivial, "key": key, "violation": None}
